@@ -7,4 +7,5 @@ for P in "$@"; do
   ./check $P quick 2>&1 | grep -E "^(VIOLATION|OK|KNOWN)" | grep -v KNOWN-FINDING | cut -c1-200
 done
 git -C /repo checkout -- .
+/verif/harness/target/debug/harness extract --out /verif/lean/O2oModel/Generated.lean >/dev/null
 (cd /verif/harness && cargo build --offline --quiet 2>/dev/null; cargo build --offline --quiet --no-default-features --features s2 --target-dir target2 2>/dev/null)
